@@ -77,15 +77,20 @@ _NODE = ast.parse("x + y").body[0].value
 annotate_location(_NODE, "x + y", "<c21>", 1)
 
 
-class FakeState:
-    class dfg:
-        builder = None
-    node = _NODE
-    ctx = None
+class _Dfg:
+    builder = None
 
 
+class _CCtx:
+    checked_globals = None
+
+
+# a *real* TracingState object (so that fields the tracer adds to it exist with their defaults); only the compiler context
+# and the dataflow container behind it are stand-ins
+FakeState = S.TracingState(_CCtx(), _Dfg(), _NODE)
 O.get_tracing_state = lambda: FakeState
 S.get_tracing_state = lambda: FakeState
+U.get_tracing_state = lambda: FakeState   # (lambdas read the current global)
 
 
 class Probe(O.DunderMixin):
@@ -117,6 +122,7 @@ def _from_py(v, *a, **k):
     return v if isinstance(v, Probe) else Probe("c")   # Python constants become constant objects
 
 
+_ORIG_FROM_PY = U.guppy_object_from_py      # the real conversion, used by h_constants
 U.guppy_object_from_py = _from_py
 
 
@@ -287,3 +293,80 @@ def h_tables(k: int) -> bool:
     opcls, lop, rop, _ = REF[k]
     e = EC.binary_table.get(opcls)
     return e is not None and e[0] == lop and e[1] == rop
+
+
+# ------------------------------------------------------------------------------------------------------------------
+# Python constants entering a traced computation: each becomes a Guppy value whose type and payload are determined by the
+# constant alone — not by which other constants were converted earlier in the same tracing session.
+import math as _math
+import guppylang_internals.tracing.unpacking as _U0   # (the module object; its guppy_object_from_py was saved before the stand-in above)
+from guppylang_internals.tys.ty import NumericType as _NT
+
+_REAL_FROM_PY = None
+
+
+class _Wire:
+    def __init__(self, val):
+        self.val = val
+
+
+class _ConstBuilder:
+    def __init__(self):
+        self.loaded = []
+
+    def load(self, val):
+        self.loaded.append(val)
+        return _Wire(val)
+
+
+CONSTS = [2, 2.0, 1, True, 0.0, -0.0, 0, False, 3, 1.0]
+
+
+def _fresh_state():
+    """a new tracing session: a fresh real TracingState"""
+    global FakeState
+    FakeState = S.TracingState(_CCtx(), _Dfg(), _NODE)
+
+
+def _describe(obj):
+    ty = str(obj._ty)
+    v = obj._wire.val
+    try:
+        payload = v.to_value().val if hasattr(v, "to_value") else None
+    except Exception:  # noqa: BLE001
+        payload = None
+    return ty, repr(v)
+
+
+def h_constants(case: int) -> bool:
+    """
+    pre: 0 <= case < len(CONSTS) * len(CONSTS)
+    post: _
+    """
+    # every ordered pair of constants (then the first one again) in one session
+    global LAST_DETAIL
+    from crosshair.core import realize as _realize
+    from crosshair.tracers import NoTracing as _NoTracing
+    case = _realize(case)
+    i, j = case // len(CONSTS), case % len(CONSTS)
+    k = i
+    with _NoTracing():
+        want_ty = {bool: "bool", int: "int", float: "float"}
+        alone = {}
+        for idx in {i, j, k}:
+            b = _ConstBuilder()
+            _fresh_state()
+            o = _ORIG_FROM_PY(CONSTS[idx], b, _NODE, None)
+            alone[idx] = _describe(o)
+            if alone[idx][0] != want_ty[type(CONSTS[idx])]:
+                LAST_DETAIL = f"constant {CONSTS[idx]!r} becomes a Guppy value of type {alone[idx][0]}"
+                return False
+        b = _ConstBuilder()
+        _fresh_state()
+        seq = [_describe(_ORIG_FROM_PY(CONSTS[idx], b, _NODE, None)) for idx in (i, j, k)]
+        for idx, got in zip((i, j, k), seq):
+            if got != alone[idx]:
+                LAST_DETAIL = (f"in the sequence {[CONSTS[x] for x in (i, j, k)]!r} the constant {CONSTS[idx]!r} becomes {got}, "
+                               f"on its own it becomes {alone[idx]}")
+                return False
+        return True
